@@ -34,6 +34,19 @@ def gen_arrays(ctx):
         if ctx.rng.random() < 0.3:
             m = sorted(m)  # runs of equal rows
         out.append(np.array(m))
+    # large magnitudes with nearly equal neighbours (ids, dates, timestamps): equality must be exact
+    for _ in range(ctx.n(60, 600)):
+        r = ctx.rng.randint(2, 8); c = ctx.rng.randint(1, 3)
+        base = ctx.rng.choice([100000, 20240101, 1700000000, 10**12])
+        m = [[base + ctx.rng.randint(0, 2) for _ in range(c)] for _ in range(r)]
+        if ctx.rng.random() < 0.5:
+            m = sorted(m)
+        out.append(np.array(m))
+    # wide rows (the joined text of a row is far longer than a terminal line)
+    for w in ([38, 45, 80] + ([1100] if ctx.rng.random() < 0.5 or ctx.thorough() else [])):
+        row = [ctx.rng.randint(0, 9) if w < 100 else ctx.rng.randint(10000, 99999) for _ in range(w)]
+        other = list(row); other[-1] += 1
+        out.append(np.array([row, other, row, row]))
     return out
 
 
